@@ -902,6 +902,24 @@ func parseSpecLines(lines []specLine, pkg string, file string, trusted bool) (*S
 				cur.SetAts = map[string][]*SetClause{}
 			}
 			cur.SetAts[anchor] = append(cur.SetAts[anchor], &SetClause{Name: strings.TrimSpace(parts[0]), E: e, Src: rest})
+		case "cover":
+			// cover at "<anchor text>" E   -- some path reaches the anchored statement with E true (expected satisfiable)
+			if !strings.HasPrefix(rest, "at ") {
+				return nil, fmt.Errorf("%s: cover at \"text\" E", ln.pos)
+			}
+			r := strings.TrimSpace(rest[3:])
+			if !strings.HasPrefix(r, "\"") {
+				return nil, fmt.Errorf("%s: cover at \"text\" E", ln.pos)
+			}
+			j := strings.Index(r[1:], "\"")
+			anchor := r[1 : 1+j]
+			c, err := mk("cover", owner, strings.TrimSpace(r[j+2:]), ln.pos)
+			if err != nil {
+				return nil, err
+			}
+			lastClause = c
+			c.Kind = "cover-at"
+			cur.Asserts[anchor] = append(cur.Asserts[anchor], c)
 		case "assert":
 			// assert at|after "<anchor text>" E   -- anchored on source text of a statement
 			when := "at"
